@@ -35,6 +35,7 @@ var corePark = []string{
 	"serve.lookup.after", "serve.offer.before", "serve.awaitclose.before", "serve.awaitclose.after",
 	"serve.offer.ctxdone", "serve.handler.before",
 }
+
 // send.enter is noted (not parked) so that the oracle sees whether a call
 // starts writing its element before it has registered its id
 var coreNote = []string{"serve.iter", "send.enter"}
